@@ -6,6 +6,7 @@ See Also:
 """
 
 from .serialization_error import *
+from .protocol_enum_meta import *
 
 # The generated package is imported before the subpackages below, so that its own `map`, `net`
 # and `pub` subpackages do not replace them in this namespace.
